@@ -356,7 +356,9 @@ class Host:
                     h = rng.weighted([(75, "ack"), (10, "corrupt"), (10, "none"), (5, "nak")])
                     if h == "ack":
                         r2 = yield ["hs", ACK]
-                        if std and su[1] == 5 and not length:
+                        if std and su[1] == 5:
+                            # (also with a non-zero wLength: the device commits the address on the ACK of
+                            # the status ZLP whatever the data stage was)
                             self.tag("set_address:done")
                             self.addr = su[2] & 0x7F
                         if std and su[1] == 9 and not length:
